@@ -48,7 +48,7 @@ def gen(rs, tier, index):
     gd = {}
     for g in groups:
         if rng.random() < 0.4:
-            gd[g] = {'name': 'clk_' + g.replace('/', '_'), 'en': None}
+            gd[g] = {'name': rng.choice(['clk_b', 'clk_' + g.replace('/', '_')]), 'en': None}
     if gd:
         d['group_driver'] = gd
     order = list(d['order'])
